@@ -93,8 +93,8 @@ CHECKS = {
                        "theory in the bit-vector encoding; conversions back to integers are only encoded where provably in range (host-side "
                        "interval arithmetic on monotone operations, else a solver proof). D: the fraction kernel, differentially against "
                        "time.ParseDuration executed on the same symbolic text.",
-        "bounds": {"quick": "formatter totality: all int64, both styles; round trip: fractional style on ALL int64; compact style on the 1000 values next to MinInt64, MaxInt64 and 0; parser agreement with time.ParseDuration on all strings of <= 2 bytes (all byte values); fraction kernel D: texts <0|empty|1>.<1..12 arbitrary digits><h|m|s|ms|us|ns>, both parsers executed, float64 arithmetic as integer arithmetic where provably exact and in the solvers' IEEE-754 theory otherwise",
-                   "thorough": "plus round trip of the compact style on all int64; D also with the integer part 2562047 (hours next to the int64 overflow boundary)"},
+        "bounds": {"quick": "formatter totality: all int64, both styles; round trip: fractional style on ALL int64; compact style on the 1000 values next to MinInt64, MaxInt64 and 0; parser agreement with time.ParseDuration on all strings of <= 2 bytes (all byte values); fraction kernel D: texts <0|empty|1>.<1..12 arbitrary digits><h|m|s|ms|us|ns>, both parsers executed, float64 arithmetic as integer arithmetic where provably exact and in the solvers' IEEE-754 theory otherwise; M: optional sign and 1..3 components of 7 arbitrary digits + h (the running total next to and beyond the int64/uint64 boundaries), both parsers",
+                   "thorough": "plus round trip of the compact style on all int64; D also with the integer part 2562047 (hours next to the int64 overflow boundary); M with up to 4 components"},
         "outside": "parser agreement beyond 2-byte strings (3 bytes did not finish in 15 minutes: the error paths quote the input rune by rune)",
         "assumptions": ["integer encoding: bit-wise operators only with constant masks/shift counts"],
         "runs": [
@@ -110,6 +110,8 @@ CHECKS = {
              "covers": ["C20P:parsed", "C20P:std-accepts", "C20P:only-ours-accepts"]},
             {"harness": "VH_C20D", "pkg": "slog/internal/times", "quick": {"digits": 12, "big": 0}, "thorough": {"digits": 12, "big": 1},
              "args": ["-fallback", "cvc5"], "covers": ["C20D:parsed", "C20D:accepted"]},
+            {"harness": "VH_C20M", "pkg": "slog/internal/times", "quick": {"parts": 3, "digits": 7}, "thorough": {"parts": 4, "digits": 7},
+             "args": ["-fallback", "cvc5"], "covers": ["C20M:parsed", "C20M:accepted"]},
             {"harness": "VH_C20F", "pkg": "slog/internal/times", "params": {"frac": 0, "roundtrip": 1}, "thorough_only": True, "timeout_ms": 20000,
              "args": ["-int", "-solver", "cvc5", "-fallback", "z3-new"], "covers": ["C20F:formatted", "C20F:parsed"]},
         ],
@@ -121,8 +123,10 @@ CHECKS = {
                        "symbolic, the input is any string over {/ . a b ~} (relative, absolute, or under /Volumes/). Every iteration order "
                        "of the mapping table is explored (the engine forks over all permutations of the range). Asserted: no panic; with "
                        "the privacy flag on a path under a protected directory is not reported under that directory; a path outside all "
-                       "mappings is unchanged or a shorter relative path denoting the same file.",
-        "bounds": {"quick": "directory names of 1..2 letters over {a,b}; input paths up to 4 bytes over {/,.,a,b,~} (up to 2 after /Volumes/); 0..1 extra mapping added and optionally removed",
+                       "mappings is unchanged or a shorter relative path denoting the same file. R: the caller field of a record - a record written "
+                       "from a call site whose directory is registered as protected, in 4 logger configurations, with the privacy and caller "
+                       "flags on and every combination of the other ten flag bits: the payload must name the file and must not contain the directory.",
+        "bounds": {"quick": "R: 4 configurations x 1024 flag combinations; directory names of 1..2 letters over {a,b}; input paths up to 4 bytes over {/,.,a,b,~} (up to 2 after /Volumes/); 0..1 extra mapping added and optionally removed",
                    "thorough": "directory names 1..2; input paths up to 6 bytes; 0..2 extra mappings"},
         "outside": "regexp mappings (table kept empty: regexp execution on symbolic strings is not encoded); Windows paths; longer paths",
         "assumptions": ["os.Getwd returns /tmp (engine stub; the native replayer runs in /tmp)"],
@@ -130,6 +134,7 @@ CHECKS = {
         "runs": [
             {"harness": "VH_C18", "quick": {"dir": 2, "path": 4, "maps": 1}, "thorough": {"dir": 2, "path": 6, "maps": 2},
              "covers": ["C18:returned", "C18:protected", "C18:outside"]},
+            {"harness": "VH_C18R", "covers": ["C18R:written"]},
             {"harness": "VH_C18", "quick": {"dir": 1, "path": 3, "maps": 0, "regexp": 1}, "thorough": {"dir": 2, "path": 4, "maps": 1, "regexp": 1},
              "covers": ["C18:returned", "C18:protected"]},
         ],
@@ -182,13 +187,13 @@ CHECKS = {
                        "(one for the error device); the harness keeps the configuration the sequence denotes (set replaces, add appends, "
                        "remove deletes, reset restores defaults) and a probe record of a chosen severity must reach exactly the writers the "
                        "routing rule selects, each once; a LevelSettable destination must have been told the severity before its Write.",
-        "bounds": {"quick": "sequences of <=2 operations on a fresh logger, 10 probe severities; New(...) with <=2 writer options; inductive step: ONE operation from every configuration with <=2 normal, <=1 error and <=1 per-level (Info) writers over the pool (136080 states x operations x probes), which covers histories of any length over such configurations",
-                   "thorough": "sequences of 3 operations; New(...) with <=3 options"},
+        "bounds": {"quick": "sequences of <=2 operations on a fresh logger, 10 probe severities; New(...) with <=3 of the nine writer option constructors (set/add normal and error writers, add/remove/reset per-level writers for two levels, reset all); inductive step: ONE operation from every configuration with <=2 normal, <=1 error and <=1 per-level (Info) writers over the pool (136080 states x operations x probes), which covers histories of any length over such configurations",
+                   "thorough": "sequences of 3 operations; New(...) as quick"},
         "outside": "longer sequences; OffLevel probes (discarded by design)",
         "assumptions": ["os.Stdout/os.Stderr are recording sinks"],
         "runs": [
             {"harness": "VH_C03", "quick": {"steps": 2}, "thorough": {"steps": 3}, "covers": ["C03:probed"]},
-            {"harness": "VH_C03N", "quick": {"opts": 2}, "thorough": {"opts": 3}, "covers": ["C03N:probed"]},
+            {"harness": "VH_C03N", "quick": {"opts": 3}, "thorough": {"opts": 3}, "covers": ["C03N:probed"]},
             {"harness": "VH_C03I", "covers": ["C03I:probed"]},
         ],
     },
@@ -240,7 +245,7 @@ CHECKS = {
                        "absent in the context, nil context, the inherit flag, key/value pairs vs Attr values at the call site. The observed "
                        "(key,value) sequence of the logfmt record must equal the reference merge of the statement. G: the same inside a "
                        "group. L: 13..14 call-site attributes over two keys (8192+ layouts) through the real pdqsort.",
-        "bounds": {"quick": "chain depth <= 2, <= 1 own attribute per logger, <= 1 context key, <= 2 call-site attributes; chain depth <= 4 with 0..1 own attributes per logger (every empty/non-empty pattern), no context key, <= 1 call-site attribute; groups of <= 3 members; 13 attributes over {a,b}",
+        "bounds": {"quick": "chain depth <= 2, <= 1 own attribute per logger, <= 1 context key, <= 2 call-site attributes; chain depth <= 4 with 0..1 own attributes per logger (every empty/non-empty pattern), no context key, <= 1 call-site attribute; 2 registered context keys (string/Stringer, each present or absent) on a single logger; groups of <= 3 members; 13 attributes over {a,b}",
                    "thorough": "chain depth <= 3, <= 1 own attribute per logger, <= 1 context key, <= 2 call-site attributes (3 took 25 minutes alone); chain depth <= 4 with 0..2 own attributes; chains sharing one prepared attribute set; 13..15 attributes"},
         "outside": "attribute lists of 17..64 elements; observation through the colored format (C06 checks key order there on fixed lists)",
         "assumptions": ["values are distinct integers tagging their source; observation through logfmt and JSON loggers without caller field"],
@@ -249,6 +254,9 @@ CHECKS = {
              "covers": ["C07:compared"]},
             # deep chains with empty loggers in the middle (the inherit walk must not stop at them)
             {"harness": "VH_C07", "quick": {"chain": 4, "own": 1, "ctxkeys": 0, "site": 1, "json": 0}, "thorough": {"chain": 4, "own": 2, "ctxkeys": 0, "site": 1, "json": 1},
+             "covers": ["C07:compared"]},
+            # several registered context keys, present or absent in any pattern
+            {"harness": "VH_C07", "quick": {"chain": 1, "own": 0, "ctxkeys": 2, "site": 1, "json": 0}, "thorough": {"chain": 1, "own": 1, "ctxkeys": 3, "site": 1, "json": 0},
              "covers": ["C07:compared"]},
             # loggers of a chain given one and the same prepared attribute set, then their own attributes
             {"harness": "VH_C07", "quick": {"chain": 3, "own": 1, "ctxkeys": 0, "site": 1, "json": 0, "shared": 1}, "thorough": {"chain": 3, "own": 2, "ctxkeys": 0, "site": 1, "json": 1, "shared": 1},
@@ -274,16 +282,22 @@ CHECKS = {
                        "another call site) written under global flags that may differ from B's in the privacy or the caller bit; B's two "
                        "payloads must be identical. Both in production and in test-process mode (error dumps). E: the same through the ordinary "
                        "entry points (Info/Warn/Error with call-site arguments, loggers with and without bound attributes, a third logger "
-                       "recycling the pools in between; a layout without time verbs makes the payloads comparable).",
+                       "recycling the pools in between; a layout without time verbs makes the payloads comparable). X: across executions - "
+                       "every path of the harness runs in a fresh interpreter with pristine package state (a separate process for the library); "
+                       "the probe's payload is handed to the engine under a key naming the probe's own inputs, and all executions (no history, "
+                       "or any history record under flags differing in one bit) must observe the same payload for the same key, so state cached "
+                       "in package variables cannot be warmed by the check itself; a difference is confirmed by running both executions natively "
+                       "as two processes.",
         "bounds": {"quick": "stale buffer 2 bytes, stale strings 1-2 bytes, 2 stale colour values each; 3 formats x 2 UTC modes x 4 severities x 3 messages x 5 attribute lists (incl. a group last, an error, a time.Time keyed 'time' last)",
                    "thorough": "same space (covered at quick)"},
-        "outside": "user marshallers that read from the PrintCtx (move off); the pooled attribute slice of logContext (its cells are never read beyond len; C08 checks what is put into that pool); histories of more than one real record (covered by the havoc form for the fields it knows); state cached in package variables keyed by call site would be warmed by the reference run of H",
+        "outside": "user marshallers that read from the PrintCtx (move off); the pooled attribute slice of logContext (its cells are never read beyond len; C08 checks what is put into that pool); histories of more than one real record (covered by the havoc form for the fields it knows)",
         "assumptions": ["sync.Pool hands back the object put last (engine model; natively true on one goroutine without GC)"],
         "runs": [
             {"harness": "VH_C09", "quick": {"attrkinds": 7}, "thorough": {"attrkinds": 7}, "covers": ["C09:compared"]},
             {"harness": "VH_C09H", "quick": {"testmode": 0, "fa": 4, "fb": 3}, "thorough": {"testmode": 0, "fa": 5, "fb": 5}, "covers": ["C09H:compared"]},
             {"harness": "VH_C09H", "quick": {"testmode": 1, "fa": 4, "fb": 3}, "thorough": {"testmode": 1, "fa": 5, "fb": 5}, "covers": ["C09H:compared"]},
             {"harness": "VH_C09E", "covers": ["C09E:compared"]},
+            {"harness": "VH_C09X", "quick": {"testmode": 0, "fa": 4, "fb": 3}, "thorough": {"testmode": 1, "fa": 5, "fb": 5}, "covers": ["C09X:observed"]},
         ],
     },
     "C10": {
@@ -387,7 +401,7 @@ CHECKS = {
         "assumptions": ["runs of spaces between pairs are not counted as pairs"],
         "runs": [
             {"harness": "VH_C05", "quick": {"attrs": 1, "depth": 1, "msg": 2, "key": 1}, "thorough": {"attrs": 1, "depth": 1, "msg": 2, "key": 1}, "covers": ["C05:rendered"]},
-            {"harness": "VH_C05", "quick": {"attrs": 2, "depth": 0, "msg": 0, "key": 1}, "thorough": {"attrs": 2, "depth": 0, "msg": 0, "key": 1}, "thorough_only": True, "covers": ["C05:rendered"]},
+            {"harness": "VH_C05", "quick": {"attrs": 2, "depth": 0, "msg": 0, "key": 0}, "thorough": {"attrs": 2, "depth": 0, "msg": 0, "key": 0}, "thorough_only": True, "covers": ["C05:rendered"]},
             {"harness": "VH_C05R", "covers": ["C05R:rendered"]},
         ],
     },
@@ -400,7 +414,7 @@ CHECKS = {
                        "bytes; attribute values contribute no raw control bytes. Oracle 2 (layout): the text without escapes must equal "
                        "timestamp, name, [tag of the configured width], first line padded to the minimal width, attributes in key order, "
                        "rest lines indented by four spaces - for severities built-in, registered with and without tags, and unregistered.",
-        "bounds": {"quick": "messages <= 3 bytes over printable ASCII without < > & plus LF (layout) / <= 2 bytes of anything but ESC (hygiene); tag widths 1..5 and minimal widths 16/17/36 with messages <= 2 bytes; 4 attribute lists (ints, symbolic string, error+group, []byte)",
+        "bounds": {"quick": "messages <= 3 bytes over printable ASCII without < > & plus LF (layout) / <= 2 bytes of anything but ESC (hygiene); tag widths 1..5 and minimal widths 16/17/36 with messages <= 2 bytes; attribute lists: ints, symbolic string, error+group; and for hygiene a []byte, an error and a Stringer value each containing an arbitrary byte",
                    "thorough": "messages <= 4 bytes (layout); hygiene as quick (3 bytes did not finish in 30 minutes)"},
         "outside": "messages containing < > & (excluded by the property); the multi-line error dump under go test; caller field (C14)",
         "assumptions": ["timestamp text from the real formatter on a fixed instant"],
@@ -408,7 +422,7 @@ CHECKS = {
             {"harness": "VH_C06", "quick": {"msg": 3, "attrkinds": 4}, "thorough": {"msg": 4, "attrkinds": 4}, "covers": ["C06:rendered"]},
             {"harness": "VH_C06", "quick": {"msg": 2, "attrkinds": 2, "widths": 1}, "thorough": {"msg": 3, "attrkinds": 2, "widths": 1}, "covers": ["C06:rendered"]},
             {"harness": "VH_C06", "quick": {"msg": 2, "attrkinds": 2, "tail": 1}, "thorough": {"msg": 2, "attrkinds": 4, "tail": 1, "widths": 1}, "covers": ["C06:rendered"]},
-            {"harness": "VH_C06", "quick": {"msg": 2, "attrkinds": 5, "hygiene": 1}, "thorough": {"msg": 2, "attrkinds": 5, "hygiene": 1}, "covers": ["C06:rendered"]},
+            {"harness": "VH_C06", "quick": {"msg": 2, "attrkinds": 7, "hygiene": 1}, "thorough": {"msg": 2, "attrkinds": 7, "hygiene": 1}, "covers": ["C06:rendered"]},
         ],
     },
     "C08": {
